@@ -47,104 +47,6 @@ theorem splitOnSub_colon_none (p s : Bytes) (h : ∀ b ∈ s, b ≠ COLON) : spl
     have hc' : ¬ (COLON = c) := fun e => hc e.symm
     simp [splitOnSub, List.isPrefixOf, hc', ih (fun b hb => h b (by simp [hb]))]
 
-/-! ## `:` followed by a line break -/
-
-/-- no `:` is immediately followed by CR or LF -/
-def colonNlFree : Bytes → Bool
-  | a :: b :: r => !(a == COLON && (b == LF || b == CR)) && colonNlFree (b :: r)
-  | _ => true
-
-theorem colonNlFree_cons (a : Byte) (s : Bytes) :
-    colonNlFree (a :: s) = (!(a == COLON && (s.head? == some LF || s.head? == some CR)) && colonNlFree s) := by
-  cases s with
-  | nil => simp [colonNlFree]
-  | cons b r => simp [colonNlFree]
-
-theorem splitOnSub_colonLf_none (s : Bytes) (h : colonNlFree s = true) : splitOnSub [COLON, LF] s = none := by
-  induction s with
-  | nil => rfl
-  | cons a r ih =>
-    rw [colonNlFree_cons] at h
-    simp only [Bool.and_eq_true, Bool.not_eq_true', Bool.and_eq_false_imp, Bool.or_eq_false_iff] at h
-    have ih' := ih h.2
-    simp only [splitOnSub, ih']
-    cases r with
-    | nil => simp [List.isPrefixOf]
-    | cons b r' =>
-      by_cases ha : a = COLON
-      · have := h.1 (by simp [ha])
-        simp at this
-        simp [List.isPrefixOf, this.1]
-        intro _ hb; exact absurd hb.symm this.1
-      · have : ¬ (COLON = a) := fun e => ha e.symm
-        simp [List.isPrefixOf, this]
-
-theorem splitOnSub_colonCrLf_none (s : Bytes) (h : colonNlFree s = true) : splitOnSub [COLON, CR, LF] s = none := by
-  induction s with
-  | nil => rfl
-  | cons a r ih =>
-    rw [colonNlFree_cons] at h
-    simp only [Bool.and_eq_true, Bool.not_eq_true', Bool.and_eq_false_imp, Bool.or_eq_false_iff] at h
-    have ih' := ih h.2
-    simp only [splitOnSub, ih']
-    cases r with
-    | nil => simp [List.isPrefixOf]
-    | cons b r' =>
-      by_cases ha : a = COLON
-      · have := h.1 (by simp [ha])
-        simp at this
-        simp [List.isPrefixOf]
-        intro _ hb; exact absurd hb.symm this.2
-      · have : ¬ (COLON = a) := fun e => ha e.symm
-        simp [List.isPrefixOf, this]
-
-theorem colonNlFree_of_noCrLf (s : Bytes) (h : ∀ b ∈ s, b ≠ CR ∧ b ≠ LF) : colonNlFree s = true := by
-  induction s with
-  | nil => rfl
-  | cons a r ih =>
-    rw [colonNlFree_cons, ih (fun b hb => h b (by simp [hb]))]
-    cases r with
-    | nil => simp
-    | cons b r' =>
-      have := h b (by simp)
-      simp [this.1, this.2]
-
-theorem colonNlFree_of_noColon (s : Bytes) (h : ∀ b ∈ s, b ≠ COLON) : colonNlFree s = true := by
-  induction s with
-  | nil => rfl
-  | cons a r ih =>
-    rw [colonNlFree_cons, ih (fun b hb => h b (by simp [hb]))]
-    have := h a (by simp)
-    simp [this]
-
-/-- concatenation: the seam must not be `:` followed by a line break -/
-theorem colonNlFree_append (a b : Bytes) (ha : colonNlFree a = true) (hb : colonNlFree b = true)
-    (hseam : a.getLast? ≠ some COLON ∨ (b.head? ≠ some LF ∧ b.head? ≠ some CR)) :
-    colonNlFree (a ++ b) = true := by
-  induction a with
-  | nil => simpa using hb
-  | cons x r ih =>
-    rw [colonNlFree_cons] at ha
-    simp only [Bool.and_eq_true, Bool.not_eq_true', Bool.and_eq_false_imp, Bool.or_eq_false_iff] at ha
-    rw [List.cons_append, colonNlFree_cons]
-    cases r with
-    | nil =>
-      simp only [List.nil_append, Bool.and_eq_true, Bool.not_eq_true', Bool.and_eq_false_imp, Bool.or_eq_false_iff]
-      refine ⟨?_, hb⟩
-      intro hx
-      rcases hseam with h | h
-      · simp at hx; simp [hx] at h
-      · simpa using h
-    | cons y r' =>
-      have hs : (y :: r').getLast? ≠ some COLON ∨ (b.head? ≠ some LF ∧ b.head? ≠ some CR) := by
-        rcases hseam with h | h
-        · left; simpa [List.getLast?_cons_cons] using h
-        · right; exact h
-      have := ih ha.2 hs
-      simp only [List.cons_append, List.head?_cons, Bool.and_eq_true, Bool.not_eq_true', Bool.and_eq_false_imp,
-        Bool.or_eq_false_iff] at ha ⊢
-      exact ⟨ha.1, this⟩
-
 /-! ## `: ` inside a key -/
 
 def noColonSp : Bytes → Bool
@@ -209,4 +111,85 @@ theorem space0_ws (ws nl rest : Bytes) (hws : ∀ b ∈ ws, b = SP ∨ b = TAB) 
     simp only [List.cons_append, List.append_assoc] at this ⊢
     simp [space0, hc, this]
 
+/-! ## UTF-8 validity of concatenations -/
+
+def u8cont (b : Byte) : Bool := decide (128 ≤ b.toNat) && decide (b.toNat ≤ 191)
+
+theorem validUtf8_cons (b0 : Byte) (r : Bytes) : validUtf8 (b0 :: r) =
+    (if b0.toNat < 128 then validUtf8 r
+     else if 194 ≤ b0.toNat ∧ b0.toNat ≤ 223 then
+       (match r with
+        | b1 :: r' => u8cont b1 && validUtf8 r'
+        | _ => false)
+     else if 224 ≤ b0.toNat ∧ b0.toNat ≤ 239 then
+       (match r with
+        | b1 :: b2 :: r' =>
+          (if b0.toNat = 224 then decide (160 ≤ b1.toNat) && decide (b1.toNat ≤ 191)
+           else if b0.toNat = 237 then decide (128 ≤ b1.toNat) && decide (b1.toNat ≤ 159)
+           else u8cont b1) && u8cont b2 && validUtf8 r'
+        | _ => false)
+     else if 240 ≤ b0.toNat ∧ b0.toNat ≤ 244 then
+       (match r with
+        | b1 :: b2 :: b3 :: r' =>
+          (if b0.toNat = 240 then decide (144 ≤ b1.toNat) && decide (b1.toNat ≤ 191)
+           else if b0.toNat = 244 then decide (128 ≤ b1.toNat) && decide (b1.toNat ≤ 143)
+           else u8cont b1) && u8cont b2 && u8cont b3 && validUtf8 r'
+        | _ => false)
+     else false) := by
+  conv => lhs; unfold validUtf8
+  rfl
+
+theorem validUtf8_append : ∀ (n : Nat) (a b : Bytes), a.length ≤ n → validUtf8 a = true → validUtf8 b = true →
+    validUtf8 (a ++ b) = true := by
+  intro n
+  induction n with
+  | zero =>
+    intro a b hl _ hb
+    have : a = [] := List.eq_nil_of_length_eq_zero (by omega)
+    subst this; simpa using hb
+  | succ n ih =>
+    intro a b hl ha hb
+    match a, hl, ha with
+    | [], _, _ => simpa using hb
+    | b0 :: r, hl, ha =>
+      have hlr : r.length ≤ n := by simp at hl; omega
+      rw [List.cons_append, validUtf8_cons]
+      rw [validUtf8_cons] at ha
+      by_cases h1 : b0.toNat < 128
+      · simp only [h1, if_true] at ha ⊢
+        exact ih r b hlr ha hb
+      · by_cases h2 : 194 ≤ b0.toNat ∧ b0.toNat ≤ 223
+        · match r, hlr, ha with
+          | [], _, ha => simp [h1, h2] at ha
+          | b1 :: r', hlr, ha =>
+            rw [if_neg h1, if_pos h2] at ha ⊢
+            simp only [List.cons_append, Bool.and_eq_true] at ha ⊢
+            exact ⟨ha.1, ih r' b (by simp at hlr; omega) ha.2 hb⟩
+        · by_cases h3 : 224 ≤ b0.toNat ∧ b0.toNat ≤ 239
+          · match r, hlr, ha with
+            | [], _, ha => simp [h1, h2, h3] at ha
+            | [_], _, ha => simp [h1, h2, h3] at ha
+            | b1 :: b2 :: r', hlr, ha =>
+              rw [if_neg h1, if_neg h2, if_pos h3] at ha ⊢
+              simp only [List.cons_append, Bool.and_eq_true] at ha ⊢
+              exact ⟨ha.1, ih r' b (by simp at hlr; omega) ha.2 hb⟩
+          · by_cases h4 : 240 ≤ b0.toNat ∧ b0.toNat ≤ 244
+            · match r, hlr, ha with
+              | [], _, ha => simp [h1, h2, h3, h4] at ha
+              | [_], _, ha => simp [h1, h2, h3, h4] at ha
+              | [_, _], _, ha => simp [h1, h2, h3, h4] at ha
+              | b1 :: b2 :: b3 :: r', hlr, ha =>
+                rw [if_neg h1, if_neg h2, if_neg h3, if_pos h4] at ha ⊢
+                simp only [List.cons_append, Bool.and_eq_true] at ha ⊢
+                exact ⟨ha.1, ih r' b (by simp at hlr; omega) ha.2 hb⟩
+            · simp [h1, h2, h3, h4] at ha
+
+theorem validUtf8_ascii (s : Bytes) (h : ∀ b ∈ s, b.toNat < 128) : validUtf8 s = true := by
+  induction s with
+  | nil => rfl
+  | cons c r ih =>
+    have := h c (by simp)
+    rw [validUtf8_cons]
+    simp only [this, if_true]
+    exact ih (fun b hb => h b (by simp [hb]))
 end Rpgp.Armor
